@@ -463,11 +463,19 @@ def getNamespaceProof (H : HashFn) (ign : Bool) (leaves : List (Bytes × Bytes))
 
 /-! ## lumina's wrapper: `celestia_types::nmt::NamespaceProof` -/
 
+/-- `nodes.iter().map(NamespacedHash::from_raw).collect::<Result<Vec<_>>>()` -/
+def parseNodes : List Bytes → Option (List NsHash)
+  | [] => some []
+  | b :: rest =>
+    match NsHash.ofBytes? b, parseNodes rest with
+    | some h, some hs => some (h :: hs)
+    | _, _ => none
+
 /-- `TryFrom<RawProof> for NamespaceProof`: nodes must be 90 bytes each; `start`/`end` are i64 on the
     wire and are cast with `as u32` (given here already reduced mod 2^32); a non-empty `leaf_hash` turns the
     proof into an absence proof.  `none` = `Error` (invalid namespaced hash). -/
 def NsProof.ofRaw (start end_ : Nat) (nodes : List Bytes) (leafHash : Bytes) (ign : Bool) : Option NsProof :=
-  match nodes.mapM NsHash.ofBytes? with
+  match parseNodes nodes with
   | none => none
   | some sibs =>
     if leafHash.isEmpty then some ⟨start % 4294967296, end_ % 4294967296, sibs, ign, false, none⟩
